@@ -63,6 +63,26 @@ DESC = {
  "C18c": ("C18", "udta emitted whenever any metadata field is set, even if no item results", "metadata holding only a language"),
  "C19c": ("C19", "Opus sample entry samplerate = configured rate", "Opus configured with a rate other than 48000"),
  "C20c": ("C20", "CLI opens the output without truncating", "an output path that already holds a longer file"),
+ "C01d": ("C01", "hevc_annexb_to_hvcc skips units shorter than the 2-byte NAL header", "an H.265 frame holding a 1-byte unit next to longer ones"),
+ "C02d": ("C02", "writer's finalized flag set only after a successful layout", "a sink failure during finish, then a retried finish that succeeds: the sink holds ftyp mdat ftyp mdat moov"),
+ "C03d": ("C03", "audio tables in the mdat-first layout get the video track's last delta", "fast start off + audio + last video delta different from the last audio delta"),
+ "C04d": ("C04", "H.265 parameter-set scan stops once SPS and PPS are found", "an H.265 first keyframe whose VPS follows the SPS and PPS"),
+ "C05d": ("C05", "fragmented last_dts taken (Option::take) when the queue is empty", "a write rejected directly after a flush, then another regressing write"),
+ "C06d": ("C06", "statistics use the API-level frame counters, audio counter bumped before the inner write", "an audio frame rejected by the container writer (bad ADTS/Opus, duration overflow)"),
+ "C07d": ("C07", "extract_avc_config keeps the last PPS seen before the SPS", "an H.264 keyframe with two different PPS units before the first SPS"),
+ "C08d": ("C08", "set_video_track rebuilds the builder and drops fast_start", "with_fast_start(false) called before the alias set_video_track"),
+ "C09d": ("C09", "stts builder collapses to one entry when sum == first * count", "non-uniform audio deltas whose deviations cancel against the first delta (5+ samples at tick level)"),
+ "C10d": ("C10", "data_offset patched in place after searching the moof for the bytes 'trun'", "a fragment whose first decode time contains the bytes 74 72 75 6E"),
+ "C11d": ("C11", "init segment's mvhd duration filled from the running base decode time", "init segment first requested after a flush of a segment with a non-zero start"),
+ "C12d": ("C12", "audio cumulative-duration guard measured from the first video DTS (unchecked subtraction)", "first video frame via write_video_with_dts with DTS after PTS, then two audio frames before that DTS"),
+ "C13d": ("C13", "finalized flag cleared again when the error kind is InvalidInput or InvalidData", "a sink failing with one of these two kinds, then a retried finish"),
+ "C14d": ("C14", "ADTS frame length decoded with a 12-bit mask", "ADTS frames of 4096 bytes or more"),
+ "C15d": ("C15", "interleave schedule keyed on timestamps truncated to 32 bits", "absolute timestamps straddling a multiple of 2^32 ticks (13 h 15 min)"),
+ "C16d": ("C16", "fragmented builder guard compares against 1 << 16 with >", "width or height of exactly 65536 through new_with_fragment"),
+ "C17d": ("C17", "encode_audio advances its clock by per-frame rounded ticks", "encode_audio at 44.1 kHz (or 22.05/11.025 kHz) for four or more frames"),
+ "C18d": ("C18", "fast-start measuring moov built without metadata on the audio path", "fast start + audio + metadata producing a udta box"),
+ "C19d": ("C19", "AV1 seq_tier overwritten by later operating points", "a sequence header with two or more operating points, a later one at level 4.0+ with another tier"),
+ "C20d": ("C20", "CLI reads its input through BufReader::fill_buf (first 8 KiB only)", "an input hex file longer than 8192 characters"),
 }
 def main():
     for name,(prop,what,needs) in DESC.items():
